@@ -272,7 +272,7 @@ def custom(ctx):
 # ---------------------------------------------------------------------------------------------
 E2E_QUICK = ["forced_held", "stop_twice_forced", "stop_dropped_unpolled", "idle_graceful", "stop_after_done", "graceful_held",
              "graceful_timeout", "signal_int", "signal_quit", "signal_term_held", "stop_while_paused", "stop_twice_graceful",
-             "two_workers_graceful", "signal_term"]
+             "two_workers_graceful", "signal_term", "graceful_dropped_unpolled", "graceful_dropped_polled"]
 E2E_THOROUGH = E2E_QUICK
 
 
@@ -290,7 +290,7 @@ def e2e(ctx, thorough):
             out = "HANG"
         return name, out
 
-    with ThreadPoolExecutor(max_workers=14) as ex:
+    with ThreadPoolExecutor(max_workers=16) as ex:
         res = list(ex.map(one, names))
     ctx.cov["extra_evaluations"] = ctx.cov.get("extra_evaluations", 0) + len(res)
     ctx.cov["extra_distinct_nontrivial"] = ctx.cov.get("extra_distinct_nontrivial", 0) + len(res)
